@@ -239,6 +239,15 @@ inline std::string apply_setter(size_t k, S& s, Ctx& ctx, e::engine_schema schem
         GenOpts o;
         o.v2 = v2;
         std::string p = gen_path(s, ctx, o, serial);
+        if (s.below(4) == 0)
+        {
+            // the setter (unlike a snapshot write on 2.x) takes a file name without an extension: derived columns must follow
+            auto slash = p.find_last_of('/');
+            auto dot = p.find_last_of('.');
+            if (dot != std::string::npos && (slash == std::string::npos || dot > slash))
+                p = s.coin() ? p.substr(0, dot) : p.substr(0, dot + 1);
+            ctx.label("set_relative_path:no-extension");
+        }
         g.relative_path = p;
         desc += " " + hexs(p);
         call([&] { t.set_relative_path(p); });
